@@ -8,7 +8,8 @@ use serde_json::{json, Value};
 use sourcemap::SourceView;
 use std::collections::{HashSet, VecDeque};
 
-pub const ALPHA: [char; 5] = ['a', '\n', '\r', 'é', '𝒜'];
+/// one-, two-, three- and four-byte characters plus both terminators
+pub const ALPHA: [char; 6] = ['a', '\n', '\r', 'é', '→', '𝒜'];
 
 /// RLines: split at \r\n | \n | \r; a trailing terminator yields a final empty line.
 pub fn rlines(text: &str) -> Vec<&str> {
@@ -160,6 +161,9 @@ fn apply(view: &SourceView, text: &str, op: Op) -> Option<(String, String)> {
     }
 }
 
+/// a correct index has at most (lines + 2) states; texts here have at most 10 lines
+const STATE_CAP: usize = 64;
+
 fn state_key(view: &SourceView) -> u64 {
     h64(&view.verif_index_state())
 }
@@ -249,7 +253,7 @@ fn bfs(text: &str, l: &mut Local, order: u64) -> (u64, u64, u64, usize) {
                 frontier.push_back(full);
             }
         }
-        if seen.len() > 10_000 {
+        if seen.len() > STATE_CAP {
             break;
         }
     }
@@ -278,7 +282,7 @@ fn slice_menu(text: &str) -> Vec<Op> {
 
 pub fn run(run: &mut Run) -> Finish {
     let tier = run.ctx.tier;
-    let maxlen: usize = tier.pick(7, 9);
+    let maxlen: usize = tier.pick(6, 8);
 
     // slice 1: BFS to a fixpoint for every text
     let mut sizes = vec![];
@@ -289,12 +293,12 @@ pub fn run(run: &mut Run) -> Finish {
     }
     let fix_fail = std::sync::atomic::AtomicU64::new(0);
     let max_depth = std::sync::atomic::AtomicU64::new(0);
-    run.par_slice("BFS over real line-index states to a fixpoint, every text up to length 7/9 over {a,\\n,\\r,é,𝒜}", 1, total, |idx, l| {
+    run.par_slice("BFS over real line-index states to a fixpoint, every text up to length 6/8 over {a,\\n,\\r,é,→,𝒜}", 1, total, |idx, l| {
         let k = idx & ((1 << 40) - 1);
         let len = sizes.iter().rposition(|&s| s <= k).unwrap();
         let text = text_of(k - sizes[len], len);
         let (states, transitions, traces, maxd) = bfs(&text, l, idx);
-        if states > 10_000 {
+        if states > STATE_CAP as u64 {
             fix_fail.fetch_add(1, std::sync::atomic::Ordering::Relaxed);
         }
         max_depth.fetch_max(maxd as u64, std::sync::atomic::Ordering::Relaxed);
@@ -352,13 +356,13 @@ pub fn run(run: &mut Run) -> Finish {
                 l.transitions += ops.len() as u64;
             }
         }
-        l.case(text.chars().any(|c| c == 'é' || c == '𝒜'), h64(&(3u8, menu.len())));
+        l.case(text.chars().any(|c| c == 'é' || c == '𝒜' || c == '→'), h64(&(3u8, menu.len())));
     });
 
     let ff = fix_fail.load(std::sync::atomic::Ordering::Relaxed);
     if ff > 0 {
         run.exhaustive = false;
-        run.notes.push(format!("{ff} texts hit the 10000-state cap before a fixpoint"));
+        run.notes.push(format!("{ff} texts hit the {STATE_CAP}-state cap before a fixpoint"));
     }
     Finish {
         level: "model_checking",
